@@ -134,7 +134,7 @@ Print Assumptions C12_update_commit_never_panic.
     such an object.  ([run_ok] requires exactly this of mutations inside a reverted span, so
     C12_block_revert_restores covers handles taken, mutated and put after the snapshot.) *)
 Theorem C12_handle_mutation_invisible : forall d h ah o d',
-  (exists v, o = OAAdd h v \/ o = OASub h v) ->
+  (exists v, o = OAAdd h v \/ o = OASub h v \/ exists x, o = OASetF h x v) ->
   nth_error (d_ah d) h = Some ah -> ptr_unused d (ah_ptr ah) -> step d o = Ok d' ->
   d_buf d' = d_buf d /\ d_cache d' = d_cache d /\ d_heap d' = d_heap d /\ d_handles d' = d_handles d /\
   d_trie d' = d_trie d /\ d_store_a d' = d_store_a d /\ d_store_v d' = d_store_v d /\
@@ -153,13 +153,92 @@ Print Assumptions C12_fresh_handle_unused.
 Theorem C12_mutate_after_put_not_reverted :
   match run (sdb_new [] [] []) [OAGet 1; OAAdd 0 5; OAPut 0; OSnap]%N with
   | Ok d0 => match run d0 [OAAdd 0 3; ORollback 0]%N with
-             | Ok d1 => get_state d0 1%N = Ok (Some (5%N, [])) /\ get_state d1 1%N = Ok (Some (8%N, []))
+             | Ok d1 => get_state d0 1%N = Ok (Some (fl_set fl0 FBal 5, [])) /\ get_state d1 1%N = Ok (Some (fl_set fl0 FBal 8, []))
              | Panic => False
              end
   | Panic => False
   end.
 Proof. exact mutate_after_put_not_reverted. Qed.
 Print Assumptions C12_mutate_after_put_not_reverted.
+
+(** Caller-side operations: taking AccountState / ContractState handles and snapshots, Reset,
+    GetCode, GetRawKV, SetRawKV, and SetCode through a handle whose embedded State is not a
+    buffered object (the executor opens it on the AccountState's own newState) leave buffers,
+    cache, storages, tries and staged data untouched. *)
+Theorem C12_caller_side_invisible : forall d o d',
+  match o with
+  | OAGet _ | OACreate _ | OAReset _ | OGetCode _ | ORawSet _ _ _ | ORawGet _ _ | OSSnap | OSnap | OCSnap _ | OClear => True
+  | OSetCode h _ _ => forall hs p, nth_error (x_hst (d_x d)) h = Some hs -> hs_ptr hs = Some p -> ptr_unused d p
+  | _ => False
+  end ->
+  step d o = Ok d' -> same_block_state d d'.
+Proof. exact caller_side_invisible. Qed.
+Print Assumptions C12_caller_side_invisible.
+
+(** StateDB.SetRoot / Revert to a persisted root: buffer emptied, trie switched, reads are the
+    trie's; the storage cache is not touched. *)
+Theorem C12_set_root_spec : forall d i t d', dwf d -> nth_error (x_roots (d_x d)) i = Some t -> step d (OSetRoot i) = Ok d' ->
+  entries (d_buf d') = [] /\ d_trie d' = t /\ d_cache d' = d_cache d /\ d_heap d' = d_heap d /\
+  (forall a, get_state d' a = Ok (trie_state d' a)) /\ dwf d'.
+Proof. exact set_root_spec. Qed.
+Print Assumptions C12_set_root_spec.
+
+(** NewStateDB / Clone / ChainStateDB.NewBlockState at a root: empty buffer and cache. *)
+Theorem C12_reopen_at_spec : forall d t,
+  let d' := reopen_at d t in
+  d_trie d' = t /\ d_cache d' = [] /\ entries (d_buf d') = [] /\ d_store_a d' = d_store_a d /\ d_store_v d' = d_store_v d /\
+  (forall a, get_state d' a = Ok (trie_state d' a)) /\ dwf d'.
+Proof. exact reopen_at_spec. Qed.
+Print Assumptions C12_reopen_at_spec.
+
+(** Commit persists the in-memory trie as the newest root; ChainStateDB.Apply opens the next
+    block state exactly there. *)
+Theorem C12_commit_records_root : forall d d', db_commit d = Ok d' ->
+  x_roots (d_x d') = x_roots (d_x d) ++ [d_trie d] /\ d_trie d' = d_trie d.
+Proof. exact commit_records_root. Qed.
+Print Assumptions C12_commit_records_root.
+
+Theorem C12_apply_spec : forall d d', step d OApply = Ok d' ->
+  exists d1 d2, db_update d = Ok d1 /\ db_commit d1 = Ok d2 /\ d_trie d' = d_trie d1 /\
+                x_roots (d_x d') = x_roots (d_x d1) ++ [d_trie d1] /\ d_cache d' = [] /\ entries (d_buf d') = [].
+Proof. exact apply_spec. Qed.
+Print Assumptions C12_apply_spec.
+
+(** StateDB.Rollback(revision) cuts the account log back and touches nothing else. *)
+Theorem C12_sdb_rollback_spec : forall d j rev, dwf d -> nth_error (x_ssnaps (d_x d)) j = Some rev -> rev <= next_idx (d_buf d) ->
+  exists d'', step d (OSRollback j) = Ok d'' /\ entries (d_buf d'') = firstn rev (entries (d_buf d)) /\
+              d_cache d'' = d_cache d /\ d_heap d'' = d_heap d /\ d_trie d'' = d_trie d.
+Proof. exact sdb_rollback_spec. Qed.
+Print Assumptions C12_sdb_rollback_spec.
+
+(** Behaviour of the code kept visible (each reproduced on the implementation by a corpus case). *)
+Theorem C12_clone_drops_source_hash :
+  match run (sdb_new [] [] []) [OAGet 7; OOpenAs 0; OSetCode 0 1 2; OAPut 0]%N with
+  | Ok d0 => match run d0 [OAGet 7; OAPut 1]%N with
+             | Ok d1 => get_state d0 7%N = Ok (Some (mk_fl 0 0 1 0 2, [])) /\
+                        get_state d1 7%N = Ok (Some (mk_fl 0 0 1 0 0, []))
+             | Panic => False
+             end
+  | Panic => False
+  end.
+Proof. exact clone_drops_source_hash. Qed.
+Print Assumptions C12_clone_drops_source_hash.
+
+Theorem C12_raw_kv_survives_revert :
+  match run (sdb_new [] [] []) [OSnap; OOpen 7; ORawSet 0 1 5; ORollback 0; OClear; OOpen 7; ORawGet 0 1]%N with
+  | Ok d => x_last (d_x d) = [1; 5]%N
+  | Panic => False
+  end.
+Proof. exact raw_kv_survives_revert. Qed.
+Print Assumptions C12_raw_kv_survives_revert.
+
+Theorem C12_set_code_through_buffered_state_not_reverted :
+  match run (sdb_new [] [] []) [OPut 7 3; OSnap; OOpen 7; OSetCode 0 4 0; ORollback 0]%N with
+  | Ok d => get_state d 7%N = Ok (Some (mk_fl 3 0 4 0 0, []))
+  | Panic => False
+  end.
+Proof. exact set_code_through_buffered_state_not_reverted. Qed.
+Print Assumptions C12_set_code_through_buffered_state_not_reverted.
 
 (** The unrestricted statement is false of the code: an Update between the snapshot and the
     revert leaves the reverted write in the account trie (known finding C12:update-then-rollback). *)
